@@ -11,6 +11,8 @@ CLAIMED={
  'C08':('exploration','per-connection envelope monitor (wire recorded at write time, callbacks, close) under the adversarial workload with timers, cuts and Stop'),
  'C09':('exploration','session half only: in-flight corruption of live traffic in every session state; process survival, watchdog, recovered-panic probe and liveness probe. ParseMessage/ParseSettings/dictionary loading on arbitrary off-wire input are pure functions and are NOT reached'),
  'C12':('exploration','same byte stream under several read schedules to the real parser (raw and through bufio) and through an engine\'s readLoop behind simnet; metamorphic + model oracle'),
+ 'C16':('exploration','real memory/file/SQL stores vs. a reference model, operation by operation, incl. refresh, reset, reopen, shared backing store, on the simulated disk / sqlite3'),
+ 'C17':('fault_enumeration','crash points of the interrupted store operation ENUMERATED from the simulated disk\'s op log (every disk op, every byte of small writes), process-crash and power-loss images, reopen + literal evaluation + further operations; SQL: every statement of save-and-increment failed in turn; histories are sampled'),
  'C20':('exploration','timing oracle on the real run loop with real timers on simulated time'),
 }
 extra=json.load(open('/verif/claimed.json')) if False else {}
